@@ -187,6 +187,14 @@ void sync(Ctx &c, State &s, const char *ctx)
 	for (auto &k : caps)
 		if (!sane(c, s, k, ctx))
 			return;
+	if (done.empty() && !caps.empty() && s.buf.size() == 79) {
+		// "the buffer filling" completes a line: an implementation may dispatch as soon as the 79th character is stored
+		// instead of when the next one arrives - both read the statement correctly. Accept it as the fill completion.
+		complete_line(s);
+		s.desync = true;
+		s.c->cls("line-completed-by-buffer-fill");
+		done.swap(s.done);
+	}
 	if (done.empty()) {
 		CHECK(c, caps.empty(), "%s: command '%s' was dispatched although no line was completed (buffer \"%s\")", ctx,
 		      caps.empty() ? "" : s.names[caps[0].cmd].c_str(), vis(s.buf).c_str());
